@@ -245,12 +245,12 @@ PROP = Prop(
     props_v="theories/Props/C08.v",
     theory_files=["theories/Queue/Deque.v", "theories/Queue/DequeProofs.v", "theories/Queue/DequeCorr.v",
                   "theories/Sched/ListLoop.v", "theories/Sched/ListLoopCorr.v",
-                  "theories/Sched/ListLoopProofs.v"],
+                  "theories/Sched/ListLoopProofs.v", "theories/Sched/ExactlyOnce.v", "theories/Sched/PosIso.v"],
     streams=[
         Stream(name="deque", imports=["Queue.DequeCorr"], run="deque_run", input_type="list Z * list dop",
                gen=gen_deque, impl=impl_deque, to_coq=coq_deque, oracle=oracle_deque,
                nontrivial=nontrivial_deque, shrink=shrink_deque, corr_name="deque helpers"),
-        Stream(name="loop", imports=["Sched.ListLoopCorr"], run="loop_run", input_type=LP.INPUT_TYPE,
+        Stream(name="loop", imports=["Sched.ListLoop", "Sched.ListLoopCorr"], run="loop_run", input_type=LP.INPUT_TYPE,
                gen=LP.gen_loop, impl=LP.impl_loop, to_coq=LP.coq_loop, oracle=LP.oracle_loop,
                nontrivial=LP.nontrivial_loop, shrink=LP.shrink_loop, describe=LP.describe_loop,
                corr_name="ready queue on the three loops"),
